@@ -114,6 +114,26 @@ out["steppers"]["Wave"] = {
     "finite": bool(np.all(np.isfinite(np.asarray(yw)))), "zero_finite": bool(np.all(np.isfinite(np.asarray(zw)))),
     "zero_max": float(np.max(np.abs(np.asarray(zw)))), "y": np.asarray(yw, dtype=float).ravel().tolist(), "forced": False,
 }
+# stiff linear propagators on fine grids, every mixing flag: the modulus |exp(dt·λ_k)| of every mode (1 for the
+# non-dissipative equations, <= 1 for the dissipative ones), compared between the two sessions by the parent
+out["stiff"] = {}
+for label, mkst in [
+    ("Dispersion(advect_on_diffusion=False)[1d,N=256]", lambda: ex.stepper.Dispersion(1, 1.0, 256, 0.1, dispersivity=1.0)),
+    ("Dispersion(advect_on_diffusion=True)[1d,N=256]", lambda: ex.stepper.Dispersion(1, 1.0, 256, 0.1, dispersivity=1.0, advect_on_diffusion=True)),
+    ("Dispersion(advect_on_diffusion=True)[1d,N=64]", lambda: ex.stepper.Dispersion(1, 1.0, 64, 0.01, dispersivity=1.0, advect_on_diffusion=True)),
+    ("Dispersion(advect_on_diffusion=True)[2d,N=48]", lambda: ex.stepper.Dispersion(2, 1.0, 48, 0.05, dispersivity=0.7, advect_on_diffusion=True)),
+    ("Advection[1d,N=256]", lambda: ex.stepper.Advection(1, 1.0, 256, 10.0, velocity=3.0)),
+    ("HyperDiffusion(diffuse_on_diffuse=True)[2d,N=48]", lambda: ex.stepper.HyperDiffusion(2, 1.0, 48, 0.1, hyper_diffusivity=1e-4, diffuse_on_diffuse=True)),
+    ("AdvectionDiffusion[1d,N=256]", lambda: ex.stepper.AdvectionDiffusion(1, 1.0, 256, 0.1, velocity=2.0, diffusivity=0.01)),
+    ("KortewegDeVries[1d,N=256]", lambda: ex.stepper.KortewegDeVries(1, 1.0, 256, 0.01)),
+]:
+    try:
+        st_ = mkst()
+        e_ = np.asarray(st_._integrator._exp_term)
+        out["stiff"][label] = {"finite": bool(np.all(np.isfinite(e_))), "modulus": np.abs(e_).astype(float).ravel()[:4096].tolist(),
+                               "dtype": str(e_.dtype)}
+    except Exception as e_x:   # noqa: BLE001
+        out["stiff"][label] = {"error": f"{type(e_x).__name__}: {str(e_x)[:200]}"}
 # double-precision fidelity: in the x64 session the linear classes (closed-form solution known) are accurate to DOUBLE
 # rounding, not merely to single — a result that went through a single-precision constant or cast somewhere is a silent
 # fall-back to another precision although its dtype says float64
